@@ -277,8 +277,29 @@ def cells_of_dump(d):
     return conts, cells
 
 
+def empty_loops(d):
+    out = []
+
+    def walk(c, path):
+        p = path + (c['code'],)
+        for l in c['loops']:
+            if not l['packets']:
+                out.append((p, tuple(l['names'])))
+        for f in c['frames']:
+            walk(f, p)
+    for b in d['blocks']:
+        walk(b, ())
+    return out
+
+
 def check_content(ref, dump):
     conts, cells = cells_of_dump(dump)
+    if ref.stopped is None:
+        # a loop all of whose packets were passed over has no place in the data model: whatever else was skipped in its container,
+        # a parse that ran to its end leaves no loop without packets behind
+        el = empty_loops(dump)
+        if el:
+            return 'loop %r of container %r is left in the stored CIF without any packet' % (el[0][1], el[0][0])
     for c in ref.must_containers:
         if c not in conts:
             return 'container %r is missing from the stored CIF' % (c,)
